@@ -47,6 +47,13 @@ def kernelStateX16 (g v : List Nat) (rk dst0 src tmp0 : List Nat) : State :=
     [⟨"rk", wordsMem rk, false⟩, ⟨"dst", dst0, true⟩, ⟨"src", src, false⟩, ⟨"tmp", tmp0, true⟩]
     [("rk", arg 0), ("dst", arg 1), ("src", arg 2), ("tmp", arg 3)]
 
+/-- entry state of `cryptoBlockAsmX16Internal` as the Go wrapper `cryptoBlockAsmX16(rk, dst, src)` of
+    sm4_asm_arm64.go calls it: `tmp` IS `dst` (256 bytes) -/
+def kernelStateX16Go (g v : List Nat) (rk dst0 src : List Nat) : State :=
+  mkState g v symbols
+    [⟨"rk", wordsMem rk, false⟩, ⟨"dst", dst0, true⟩, ⟨"src", src, false⟩]
+    [("rk", arg 0), ("dst", arg 1), ("src", arg 2), ("tmp", arg 1)]
+
 /-- entry state of `expandKeyAsm(mk *byte, enc, dec *uint32)` -/
 def expandKeyState (g v : List Nat) (key enc0 dec0 : List Nat) : State :=
   mkState g v symbols
